@@ -606,12 +606,17 @@ def check(case, cc):
                'passes': [{'frames': p['n'], 'channels': p['names'][:8], 'implied_x': p['implied_x']} for p in passes]})
     # ---- convert
     with tempfile.TemporaryDirectory(prefix='vt_c11_') as tmp:
-        path_in = os.path.join(tmp, 'in', FILE_NAMES[fmt])
+        file_name = FILE_NAMES[fmt]
+        if fmt == 'RP66V1':     # dots inside the name (well.1.dlis): only the last one starts the extension
+            file_name = ('src.dlis', 'well.1.dlis', 'run.2.final.DLIS', 'src.dlis')[(len(data) // 2 + len(passes)) % 4]
+            cc.cls('rp66v1-input-name-with-inner-dots', file_name.count('.') > 1)
+        extra = dict(extra, file_name=file_name)
+        path_in = os.path.join(tmp, 'in', file_name)
         out_dir = os.path.join(tmp, 'out')
         os.makedirs(os.path.dirname(path_in))
         with open(path_in, 'wb') as f:
             f.write(data)
-        path_out = os.path.join(out_dir, FILE_NAMES[fmt])
+        path_out = os.path.join(out_dir, file_name)
         result, cap = convert(fmt, path_in, path_out, case)
         produced = {}
         if os.path.isdir(out_dir):
@@ -650,7 +655,7 @@ def check_outputs(case, cc, fmt, sel, passes, extra, requested, reduction, resul
         dev(O_RESULT, sig, '%s: conversion failed: %s' % (desc, why))
         return
     # ---- which LAS files hold data, in order
-    stem = FILE_NAMES[fmt]
+    stem = extra.get('file_name') or FILE_NAMES[fmt]
     files = []
     for nm, text in produced.items():
         try:
